@@ -115,7 +115,8 @@ class C07(E1Check):
         return 6000 if tier == "quick" else 30000
 
     def hash_modes(self, tier: str, program: Any) -> tuple:
-        return (0,)
+        # thorough: both iteration orders of the task sets that anyio walks when it delivers a cancellation
+        return (0,) if tier == "quick" else (0, 1)
 
     async def main(self, env: Any, program: dict) -> None:
         from asphalt.core import ComponentStartError, Context, start_component
